@@ -240,15 +240,17 @@ pub fn victim(args: &Args) {
                     m.add_file_reconstruction_info(f).await.unwrap();
                 }
                 marker("begin");
-                let _ = m.flush().await;
+                let r = m.flush().await;
                 marker("end");
+                println!("XVRESULT {}", if r.is_ok() { "ok" } else { "err" });
             });
         },
         "consolidate" => {
             let target = if big { 1 << 26 } else { 4000 };
             marker("begin");
-            let _ = consolidate_shards_in_directory(&dir.join("shards"), target);
+            let r = consolidate_shards_in_directory(&dir.join("shards"), target);
             marker("end");
+            println!("XVRESULT {}", if r.is_ok() { "ok" } else { "err" });
         },
         "localput" => {
             let rt = rt_multi();
@@ -256,8 +258,9 @@ pub fn victim(args: &Args) {
                 let c = LocalClient::new(dir.join("store"), None).unwrap();
                 let (h, data, cb) = gen_xorb(&mut rng, big);
                 marker("begin");
-                let _ = c.put("default", &h, data, cb).await;
+                let r = c.put("default", &h, data, cb).await;
                 marker("end");
+                println!("XVRESULT {}", if r.is_ok() { "ok" } else { "err" });
             });
         },
         "cacheput" => {
@@ -267,13 +270,15 @@ pub fn victim(args: &Args) {
             let (a, b) = (0, t.n());
             let (o, d) = t.slice(a, b);
             marker("begin");
-            let _ = cache.put(&t.key, &ChunkRange { start: a as u32, end: b as u32 }, &o, d);
+            let r = cache.put(&t.key, &ChunkRange { start: a as u32, end: b as u32 }, &o, d);
             marker("end");
+            println!("XVRESULT {}", if r.is_ok() { "ok" } else { "err" });
         },
         "cacheinit" => {
             marker("begin");
-            let _ = DiskCache::initialize(&CacheConfig { cache_directory: dir.join("cache"), cache_size: cache_cap(&hist) });
+            let r = DiskCache::initialize(&CacheConfig { cache_directory: dir.join("cache"), cache_size: cache_cap(&hist) });
             marker("end");
+            println!("XVRESULT {}", if r.is_ok() { "ok" } else { "err" });
         },
         _ => panic!("unknown op"),
     }
@@ -361,6 +366,22 @@ pub fn check(args: &Args) {
                         return Err(format!("record-lost-after-crash|xorb record {} retrievable before the interrupted operation is gone", c.as_str().unwrap()));
                     }
                 }
+                // an operation that reported success (I/O-error runs: the process went on) has its own records in place
+                if op == "flush" && args.str("op-result", "") == "ok" {
+                    let mut vr = Rng::new(seed ^ 0x71C7);
+                    let big = args.has("big");
+                    let (vcas, vfiles) = gen_shard_content(&mut vr, if big { 6 } else { 3 }, 4, big);
+                    for c in &vcas {
+                        if !cas.contains_key(&c.metadata.cas_hash.hex()) {
+                            return Err(format!("success-but-record-missing|flush returned Ok although an I/O call failed, and xorb record {} is in no shard", c.metadata.cas_hash.hex()));
+                        }
+                    }
+                    for f in &vfiles {
+                        if !files.contains_key(&f.metadata.file_hash.hex()) {
+                            return Err(format!("success-but-record-missing|flush returned Ok although an I/O call failed, and file record {} is in no shard", f.metadata.file_hash.hex()));
+                        }
+                    }
+                }
                 // re-open through the manager
                 let rt = rt_current();
                 let reopened = rt.block_on(async {
@@ -403,23 +424,45 @@ pub fn check(args: &Args) {
             },
             "localput" => {
                 let xd = dir.join("store").join("xorbs");
-                let mut names = BTreeSet::new();
-                let mut n_temp = 0;
-                if let Ok(rd) = std::fs::read_dir(&xd) {
-                    for e in rd.flatten() {
-                        let name = e.file_name().to_string_lossy().to_string();
-                        let Some(hexs) = name.strip_prefix("default.") else {
-                            n_temp += 1;
-                            continue;
-                        };
-                        let bytes = std::fs::read(e.path()).map_err(|er| format!("io: {er}"))?;
-                        let r = refs::ref_parse_xorb_v1(&bytes).map_err(|er| format!("partial-xorb-under-final-name|xorb file {name} ({} bytes) does not decode: {er}", bytes.len()))?;
-                        if refs::hex_words(&r.computed_hash) != hexs {
-                            return Err(format!("partial-xorb-under-final-name|xorb file {name}: recomputed hash differs from its name"));
+                let ioerr = args.str("fault", "") == "ioerr";
+                // the xorb the victim puts (a pure function of the seed)
+                let (vh, vdata, vcb) = {
+                    let mut vr = Rng::new(seed ^ 0x71C7);
+                    gen_xorb(&mut vr, args.has("big"))
+                };
+                let scan = |tolerate: Option<&str>| -> Result<(BTreeSet<String>, usize, bool), String> {
+                    let mut names = BTreeSet::new();
+                    let mut n_temp = 0;
+                    let mut tolerated = false;
+                    if let Ok(rd) = std::fs::read_dir(&xd) {
+                        for e in rd.flatten() {
+                            let name = e.file_name().to_string_lossy().to_string();
+                            let Some(hexs) = name.strip_prefix("default.") else {
+                                n_temp += 1;
+                                continue;
+                            };
+                            let bytes = std::fs::read(e.path()).map_err(|er| format!("io: {er}"))?;
+                            let parsed = refs::ref_parse_xorb_v1(&bytes);
+                            let good = matches!(&parsed, Ok(r) if refs::hex_words(&r.computed_hash) == hexs);
+                            if !good {
+                                if tolerate == Some(hexs) {
+                                    tolerated = true;
+                                    continue;
+                                }
+                                return Err(match parsed {
+                                    Err(er) => format!("partial-xorb-under-final-name|xorb file {name} ({} bytes) does not decode: {er}", bytes.len()),
+                                    Ok(_) => format!("partial-xorb-under-final-name|xorb file {name}: recomputed hash differs from its name"),
+                                });
+                            }
+                            names.insert(hexs.to_string());
                         }
-                        names.insert(hexs.to_string());
                     }
-                }
+                    Ok((names, n_temp, tolerated))
+                };
+                // I/O-error runs are judged at the client boundary (C16): what counts is what a put that returns Ok leaves
+                // behind, so a damaged file of the victim's own xorb is tolerated here and judged after the retry below
+                let vhex = vh.hex();
+                let (names, n_temp, damaged_left) = scan(if ioerr { Some(vhex.as_str()) } else { None })?;
                 if phase == "pre" {
                     return Ok(json!({"xorbs": names.iter().collect::<Vec<_>>()}));
                 }
@@ -429,16 +472,31 @@ pub fn check(args: &Args) {
                         return Err(format!("record-lost-after-crash|xorb {} stored before the interrupted put is gone", x.as_str().unwrap()));
                     }
                 }
+                if args.str("op-result", "") == "ok" && !names.contains(&vhex) {
+                    return Err(format!("success-but-xorb-not-stored|put returned Ok although an I/O call underneath it failed, and xorb {vhex} is not stored complete"));
+                }
                 let rt = rt_multi();
-                rt.block_on(async {
+                let retried = rt.block_on(async {
                     let c = LocalClient::new(dir.join("store"), None).map_err(|e| format!("reopen-error-after-crash|LocalClient cannot re-open the store: {e}"))?;
                     for x in pre["xorbs"].as_array().unwrap() {
                         let h = MerkleHash::from_hex(x.as_str().unwrap()).unwrap();
                         c.get(&h).map_err(|e| format!("record-lost-after-crash|stored xorb {} no longer readable: {e}", h.hex()))?;
                     }
-                    Ok::<(), String>(())
+                    if ioerr {
+                        // the caller retries the upload (now without a fault): a put that returns Ok must leave the xorb stored complete
+                        if c.put("default", &vh, vdata.clone(), vcb.clone()).await.is_ok() {
+                            return Ok::<bool, String>(true);
+                        }
+                    }
+                    Ok::<bool, String>(false)
                 })?;
-                Ok(json!({"xorbs": names.len(), "temp_files_ignored": n_temp}))
+                if retried {
+                    let (names2, _, _) = scan(None).map_err(|e| e.replace("partial-xorb-under-final-name", "success-but-xorb-not-stored"))?;
+                    if !names2.contains(&vhex) {
+                        return Err(format!("success-but-xorb-not-stored|the retried put returned Ok and xorb {vhex} is not stored"));
+                    }
+                }
+                Ok(json!({"xorbs": names.len(), "temp_files_ignored": n_temp, "damaged_file_left_by_failed_put": damaged_left as u64, "retried_puts_judged": retried as u64}))
             },
             "cacheput" | "cacheinit" => {
                 let cd = dir.join("cache");
@@ -497,6 +555,19 @@ pub fn check(args: &Args) {
                             return Err(format!("record-lost-after-crash|chunk {} (key:index) was readable from the cache before the interrupted put and is not after the restart (no eviction possible)", r.as_str().unwrap()));
                         }
                         kept += 1;
+                    }
+                }
+                if op == "cacheput" && no_eviction && args.str("op-result", "") == "ok" {
+                    let t = &truth[3];
+                    let (_, d) = t.slice(0, t.n());
+                    match cache.get(&t.key, &ChunkRange { start: 0, end: t.n() as u32 }) {
+                        Ok(Some(r)) if r.data.as_ref() == d => {},
+                        other => {
+                            return Err(format!(
+                                "success-but-record-missing|put returned Ok although an I/O call failed, and the item does not read back after a re-open ({:?})",
+                                other.map(|o| o.is_some())
+                            ))
+                        },
                     }
                 }
                 // the restarted process goes on: the same put again must work and read back
